@@ -391,7 +391,7 @@ PROPS["C03"] = dict(
          "chan) in 5 printing positions. Each case: 24 renders on fresh engines and fresh context values + 8 with reversed insertion "
          "order, all in 3 independent sets of processes; every output must be byte-identical; the same instant (8, before and after "
          "1970) as time value / int / int64 / decimal formats alike; include-with hashes whose values read keys of the same hash "
-         "(plain, only, sandboxed) against the model's value. non-trivial = not order-insensitive; every case also renders its context object, edits every map of two or more string keys in it in place (one key replaced, size kept), renders again and compares with a fresh object of the same content",
+         "(plain, only, sandboxed) against the model's value. non-trivial = not order-insensitive; family wide (maps of 63 / 64 / 65 / 70 keys walked by loops and keys); every case also renders its context object, edits every map of two or more string keys in it in place (one key replaced, size kept), renders again and compares with a fresh object of the same content",
     assumptions=["no reference order is assumed: any fixed order passes", "a failing render is a fixed result too (anyoutcome)"],
 )
 
